@@ -2,9 +2,7 @@
 from contracts import namemap
 
 LEVEL = "other"
-TRUSTED = ["ASSUMED step contract (S1-S5 with list-valued entries) of _match_display_names_exact / _match_display_names_fuzzy at their call sites in the two "
-           "pipelines - not proved; exercised by the bounded stand-in c17",
-           "difflib.get_close_matches(word, possibilities, n, cutoff) returns at most n of the possibilities; str.lower is a function",
+TRUSTED = ["difflib.get_close_matches(word, possibilities, n, cutoff) returns at most n of the possibilities; str.lower is a function",
            "build_display_name_mapping only produces feature keys of the features it is given",
            "a list of distinct column names is abstracted to its set (order dropped; exact for in / copy / remove / len == 0)",
            "reference semantics of the bounded stand-in written from the property statement (native/pure_bounded.py)"]
@@ -12,17 +10,19 @@ EXPLANATION = ("PROVED (SMT, unbounded - every list of distinct columns, every l
                "(1) the real _match_exact against its functional spec (a column stays iff it is not a newly mapped target field; a target field naming a "
                "column is mapped to exactly that column; existing entries are never overwritten) and the real _match_fuzzy against the step contract "
                "S1-S5 (list shrinks, never overwrites, each consumed column is the value of exactly one new key, new keys are target fields) by loop "
-               "invariants with ghost 'seen fields' and 'owner' maps; the real _map_remaining_to_self; "
+               "invariants with ghost 'seen fields' and 'owner' maps; the real _map_remaining_to_self; the real _match_display_names_exact and _match_display_names_fuzzy against the same "
+               "step contract with list-valued entries (two loop invariants each: a new single key holds one matched column of a single-valued feature, a multi entry holds the matched "
+               "column of its (key, index) and its key is not yet in the mapping, the remaining list is the columns not consumed; then every multi key receives the list of exactly its "
+               "columns; the `any(...)` over the display names is linked to 'the feature has another index' by a proved lemma; for the fuzzy step ghost maps remember what a column was matched to); "
                "(2) the real bodies of infer_node_name_map and infer_edge_name_map, with the steps used through their contracts: every source column is "
                "used by exactly one key (as its value, as an element of a list value, or mapped to itself) and nothing else is used; a column spelled "
                "like a required key or like seg_id is mapped to that key. The argument that the final update() with the self-mapped remainder cannot "
                "overwrite a key (no remaining column is spelled like a standard field or a feature key, because the two exact steps consumed those) is "
                "part of the discharged obligations. "
-               "BOUNDED STAND-IN: the two display-name steps (whose contract is assumed above) and an end-to-end cross-check with the real difflib on "
+               "BOUNDED cross-check: end-to-end with the real difflib on "
                "column lists drawn from a vocabulary of similar and competing names.")
 ASSUMPTIONS = ["column names are distinct (the property's quantifier)", "bounded stand-in: sampled over the stated finite space, not a proof"]
-NOT_UNDER_CONTRACT = ["_match_display_names_exact (assumed contract + bounded)", "_match_display_names_fuzzy (assumed contract + bounded)",
-                      "build_display_name_mapping (assumed)"]
+NOT_UNDER_CONTRACT = ["build_display_name_mapping (assumed: it only produces feature keys of the features it is given)", "build_standard_fields is executed inline"]
 
 
 def units(tier):
